@@ -429,6 +429,71 @@ def builder_fn(src, which):
     return out
 
 
+def validate_integrity(src):
+    """Message::validate_integrity: selection of the algorithm from the exposed attributes, then the location
+    scan (`while !data.is_empty()`) with the HMAC input rewrite.  debug_assert!s become explicit panics."""
+    txt = src.get(MSG)
+    imp = impl_body(txt, r"impl\s*<'a>\s*Message<'a>\s*\{")
+    if imp is None:
+        raise XlateError("impl Message not found")
+    body = fn_body(imp, r"pub\s+fn\s+validate_integrity\s*\(\s*&self\s*,\s*credentials\s*:\s*&MessageIntegrityCredentials\s*,?\s*\)\s*->\s*Result<IntegrityAlgorithm,\s*StunParseError>\s*\{")
+    if body is None:
+        raise XlateError("validate_integrity not found")
+    exprs = [
+        ("self.raw_attribute($t)", "(m.rawAttribute $t)"),
+        ("MessageIntegrity::TYPE", "tyMI"), ("MessageIntegritySha256::TYPE", "tyMI256"),
+        ("MessageIntegritySha256::try_from(&$x)", "(mi256FromRaw $x)"),
+        ("MessageIntegrity::try_from(&$x)", "(miFromRaw $x)"),
+        ("integrity.hmac().to_vec()", "integrity"),
+        ("msg.hmac().as_slice()", "msg"), ("msg.hmac()", "msg"),
+        ("msg_hmac.as_slice().try_into().unwrap()", "msg_hmac"),
+        ("IntegrityAlgorithm::Sha256", "Algo.sha256"), ("IntegrityAlgorithm::Sha1", "Algo.sha1"),
+        ("Err(StunParseError::MissingAttribute($t))", "(Except.error (PErr.missing $t))"),
+        ("self.data[..$k].to_vec()", "(m.data.take $k)"),
+        ("self.data", "m.data"),
+        ("MessageHeader::LENGTH", "headerLength"),
+        ("$d.len()", "$d.length"), ("$d.is_empty()", "$d.isEmpty"), ("$d[$k..]", "($d.drop $k)"),
+        ("RawAttribute::from_bytes($d)", "(rawFromBytes $d)"),
+        ("attr.get_type()", "attr.ty"), ("attr.padded_len()", "attr.paddedLen"),
+        ("attr.length() as usize", "(attr.value.length % 65536)"),
+        ("credentials.make_hmac_key()", "(hmacKey H c)"),
+        ("MessageIntegrity::verify(&$d, &$k, $h)", "(verifySha1 H $d $k $h)"),
+        ("MessageIntegritySha256::verify(&$d, &$k, &$h)", "(verifySha256 H $d $k $h)"),
+        ("Ok(algo)", "(Except.ok algo)"),
+    ]
+    stmts = [("BigEndian::write_u16(&mut hmac_data[2..4], $v)", "setLen hmac_data $v")]
+    loop_vars = ["data", "data_offset"]
+    call = "validateScan H m c algo msg_hmac __fuel data data_offset"
+    out = {}
+
+    def mk(locals_):
+        em = Emitter(exprs=exprs, stmts=stmts, state="hmac_data", ret="{v}", locals_=locals_)
+        em.on_assert = "Except.error (PErr.fault Fault.panic)"
+        em.on_unreachable = "Except.error (PErr.fault Fault.unreachable)"
+        return em
+
+    em = mk([])
+
+    def on_while(stmt, rest):
+        _, cond, wbody = stmt
+        missing = [v for v in loop_vars + ["algo", "msg_hmac"] if v not in em.locals]
+        if missing:
+            raise XlateError(f"validate_integrity: loop variables not declared before the loop: {missing}")
+        eb = mk(list(em.locals))
+        eb.on_end = eb.on_continue = call
+        body_l = eb.blk(list(wbody))
+        ea = mk(list(em.locals))
+        after_l = ea.blk(list(rest))
+        out["loop"] = ("match __f with\n  | 0 => Except.error (PErr.fault Fault.hang)\n  | __fuel + 1 => "
+                       f"(if {eb.tx(cond, 'c')} then {body_l} else {after_l})")
+        return "validateScan H m c algo msg_hmac (m.data.length + 1) data data_offset"
+    em.on_while = on_while
+    out["entry"] = em.blk(parse_body(body))
+    if "loop" not in out:
+        raise XlateError("validate_integrity: no while loop found")
+    return out
+
+
 def req_mut(src, name):
     txt = src.get(AGENT)
     imp = impl_body(txt, r"impl\s*<'a>\s*StunRequestMut<'a>\s*\{")
@@ -548,6 +613,15 @@ def items(src):
     yield ("FnBuilder", "addFingerprint", "(addFingerprintUnchecked : Builder → Builder) (b : Builder) : Except WErr Builder", lambda: builder_fn(src, "add_fingerprint"), None)
     yield ("FnBuilder", "addRawAttribute", "(b : Builder) (a : BAttr) : Except WErr Builder", lambda: builder_fn(src, "add_raw_attribute"), None)
     yield ("FnBuilder", "addAttribute", "(b : Builder) (a : BAttr) : Except WErr Builder", lambda: builder_fn(src, "add_attribute"), None)
+    vi = {}
+    def vi_part(k):
+        def f():
+            if not vi:
+                vi.update(validate_integrity(src))
+            return vi[k]
+        return f
+    yield ("FnIntegrity", "validateScan", "(H : Hashes) (m : Msg) (c : Creds) (algo : Algo) (msg_hmac : Bytes) (__f : Nat) (data : Bytes) (data_offset : Nat) : Except PErr Algo", vi_part("loop"), None)
+    yield ("FnIntegrity", "validateIntegrity", "(H : Hashes) (m : Msg) (c : Creds) : Except PErr Algo", vi_part("entry"), None)
     yield ("FnPolice", "checkAttributeTypes", "(m : Msg) (supported required_in_msg : List Nat) : Option Builder", lambda: check_attribute_types(src), None)
     yield ("FnTcp", "tcpTake", "(buf : Bytes) (offset : Nat) : Bytes × Bytes", lambda: tcp_fn(src, "take"), None)
     yield ("FnTcp", "tcpPull", "(buf : Bytes) : Option Bytes × Bytes", lambda: tcp_fn(src, "pull_data"), None)
@@ -558,6 +632,7 @@ HEADERS = {
     "FnAgent": ["import StunVerif.Agent.Agent", "namespace StunVerif.Gen", "open StunVerif StunVerif.Agent", ""],
     "FnMsg": ["import StunVerif.Msg.IterState", "import StunVerif.Gen.MsgType", "namespace StunVerif.Gen", "open StunVerif", ""],
     "FnBuilder": ["import StunVerif.Msg.Builder", "namespace StunVerif.Gen", "open StunVerif", ""],
+    "FnIntegrity": ["import StunVerif.Msg.ValidateLeaves", "import StunVerif.Gen.MsgType", "namespace StunVerif.Gen", "open StunVerif", ""],
     "FnPolice": ["import StunVerif.Msg.Police", "import StunVerif.Gen.Attr", "namespace StunVerif.Gen", "open StunVerif", ""],
     "FnTcp": ["import StunVerif.Bytes", "namespace StunVerif.Gen", "open StunVerif", ""],
 }
